@@ -253,9 +253,22 @@ def clim_config(members, span_kind="list", tkind="iso"):
     return out
 
 
+def omit_defaults(case) -> bool:
+    """Deterministic coin per logical case: leave out the keyword arguments whose value equals the documented default
+    (start_inclusive=True, end_inclusive=False, method="average", tolerance=0, check_type="std"), so that the
+    defaults of the signatures are exercised as well as the explicit spellings."""
+    if "omit_defaults" in case:
+        return bool(case["omit_defaults"])
+    import zlib
+
+    key = repr([(k, str(case[k])) for k in sorted(case) if k not in ("hops",)])
+    return zlib.crc32(key.encode()) % 2 == 0
+
+
 def build_call(case, carrier="nd_f8", tcarrier="dt64ns", span_kind="list"):
     """Return (function, kwargs) for a logical test case."""
     fn = case["fn"]
+    od = omit_defaults(case)
     D = lambda k: mk_data(case[k], carrier)  # noqa: E731
     T = lambda: (mk_time_ns(case["t_ns"], tcarrier) if "t_ns" in case else mk_time(case["t"], tcarrier))  # noqa: E731
     fo = lambda k: None if case.get(k) is None else float(case[k])  # noqa: E731
@@ -279,10 +292,12 @@ def build_call(case, carrier="nd_f8", tcarrier="dt64ns", span_kind="list"):
         span = (b(case.get("lo")), b(case.get("hi")))
         if span_kind == "list":
             span = list(span)
-        return axds.valid_range_test, {
-            "inp": inp, "valid_span": span,
-            "start_inclusive": case["start_incl"], "end_inclusive": case["end_incl"],
-        }
+        kw = {"inp": inp, "valid_span": span}
+        if not (od and case["start_incl"] is True):
+            kw["start_inclusive"] = case["start_incl"]
+        if not (od and case["end_incl"] is False):
+            kw["end_inclusive"] = case["end_incl"]
+        return axds.valid_range_test, kw
     if fn == "location":
         kw = {"lon": D("lon"), "lat": D("lat")}
         if case.get("bbox_default"):
@@ -309,7 +324,9 @@ def build_call(case, carrier="nd_f8", tcarrier="dt64ns", span_kind="list"):
             cfg = obj
         return qartod.climatology_test, {"config": cfg, "inp": D("inp"), "tinp": T(), "zinp": D("z")}
     if fn == "spike":
-        kw = {"inp": D("inp"), "method": case["method"]}
+        kw = {"inp": D("inp")}
+        if not (od and case["method"] == "average"):
+            kw["method"] = case["method"]
         if case.get("sus") is not None or case.get("sus_explicit_none"):
             kw["suspect_threshold"] = fo("sus")
         if case.get("fail") is not None:
@@ -318,15 +335,17 @@ def build_call(case, carrier="nd_f8", tcarrier="dt64ns", span_kind="list"):
     if fn == "roc":
         return qartod.rate_of_change_test, {"inp": D("inp"), "tinp": T(), "threshold": float(case["thr"])}
     if fn == "flat":
-        return qartod.flat_line_test, {
-            "inp": D("inp"), "tinp": T(), "suspect_threshold": float(case["sus"]),
-            "fail_threshold": float(case["fail"]), "tolerance": float(case["tol"]),
-        }
+        kw = {"inp": D("inp"), "tinp": T(), "suspect_threshold": float(case["sus"]), "fail_threshold": float(case["fail"])}
+        if not (od and case["tol"] == 0):
+            kw["tolerance"] = float(case["tol"])
+        return qartod.flat_line_test, kw
     if fn == "atten":
         kw = {
             "inp": D("inp"), "tinp": T(), "suspect_threshold": float(case["sus"]),
-            "fail_threshold": float(case["fail"]), "check_type": case["check_type"],
+            "fail_threshold": float(case["fail"]),
         }
+        if not (od and case["check_type"] == "std"):
+            kw["check_type"] = case["check_type"]
         if case.get("period") is not None:
             kw["test_period"] = int(case["period"])
         if case.get("min_obs") is not None:
